@@ -34,19 +34,28 @@ pub fn run() {
                         Err(e) => format!("panic:{}", hex(e.as_bytes())),
                     }
                 }
-                ["flush"] => {
-                    tokio::time::sleep(std::time::Duration::from_millis(120)).await;
+                ["flush", rest @ ..] => {
+                    // collect the event files until the expected number of events has been seen (they may be spread over several
+                    // flush intervals when the machine is busy), at most 10 s
+                    let want: usize = rest.first().and_then(|x| x.parse().ok()).unwrap_or(0);
                     let mut msgs = vec![];
-                    if let Ok(files) = proxy_agent_shared::misc_helpers::get_files(&dir) {
-                        for f in files {
-                            if f.extension().map(|e| e == "json").unwrap_or(false) {
-                                if let Ok(evs) = proxy_agent_shared::misc_helpers::json_read_from_file::<Vec<proxy_agent_shared::telemetry::Event>>(&f) {
-                                    for e in evs {
-                                        msgs.push(hex(e.Message.as_bytes()));
+                    let t0 = std::time::Instant::now();
+                    loop {
+                        tokio::time::sleep(std::time::Duration::from_millis(120)).await;
+                        if let Ok(files) = proxy_agent_shared::misc_helpers::get_files(&dir) {
+                            for f in files {
+                                if f.extension().map(|e| e == "json").unwrap_or(false) {
+                                    if let Ok(evs) = proxy_agent_shared::misc_helpers::json_read_from_file::<Vec<proxy_agent_shared::telemetry::Event>>(&f) {
+                                        for e in evs {
+                                            msgs.push(hex(e.Message.as_bytes()));
+                                        }
                                     }
+                                    let _ = std::fs::remove_file(&f);
                                 }
-                                let _ = std::fs::remove_file(&f);
                             }
+                        }
+                        if msgs.len() >= want || t0.elapsed().as_secs() >= 10 {
+                            break;
                         }
                     }
                     if msgs.is_empty() { "-".into() } else { msgs.join(",") }
